@@ -2946,6 +2946,10 @@ class TensorDictBase(MutableMapping):
         # check first (descending into the nested tensordicts that will have to grow),
         # so that a rejected assignment leaves every nested batch size untouched
         self._check_new_batch_size(new_batch_size)
+        if self._is_locked:
+            # the batch size can be assigned under lock: the reads memoised by this tensordict and
+            # by the tensordicts that hold it (flatten_keys, detach, ...) carry the old one
+            self._erase_cache_up()
         # what remains can still fail once nested tensordicts have been resized (a dim name
         # pushed into a nested tensordict may clash with one of its own names): the batch
         # sizes and names are then put back, so that a refused assignment changes nothing
